@@ -365,6 +365,23 @@ def make_fake_plyvel(world):
     return mod
 
 
+def read_logical(fs, prefix, digits, file_size, start, size):
+    """Harness-side read of a LogicalFile's content straight from the simulated disk (no seams)."""
+    out = b''
+    while size > 0:
+        n, off = divmod(start, file_size)
+        data = fs.files.get('%s%0*d' % (prefix, digits, n))
+        if data is None:
+            break
+        part = bytes(data[off:off + min(size, file_size - off)])
+        if not part:
+            break
+        out += part
+        start += len(part)
+        size -= len(part)
+    return out
+
+
 class TimeShim:
     """Replacement for the name `time` inside ElectrumX / aiorpcX modules."""
 
@@ -410,7 +427,17 @@ def install_storage(world):
     import aiorpcx.session as arsess
 
     if not _REAL:
-        _REAL.update(open_file=util.open_file, open_truncate=util.open_truncate, os=dbmod.os)
+        _REAL.update(open_file=util.open_file, open_truncate=util.open_truncate, os=dbmod.os,
+                     lf_init=util.LogicalFile.__init__)
+    # tuning knob (per run): the size of the physical files a LogicalFile is split into - 16 MB / 2 MB in the
+    # code, so that a boundary would need 200 000 blocks; here a few hundred bytes to a few KB (sizes that are
+    # no multiple of the record size, so records straddle files)
+    fsz = (getattr(world, 'k', None) or {}).get('file_size')
+    real_init = _REAL['lf_init']
+
+    def lf_init(self, prefix, digits, file_size):
+        real_init(self, prefix, digits, fsz or file_size)
+    util.LogicalFile.__init__ = lf_init if fsz else real_init
     if getattr(world, 'real_storage', None):
         if getattr(sys.modules.get('plyvel'), '_world', None) is not None:
             if _REAL.get('plyvel') is not None:
